@@ -36,7 +36,7 @@ def lookup(mapping, key):
 
 
 def reference(s, mapping, env, lower):
-    """-> ('ok', text) | ('error', syntax_possible, [missing names in reading order])
+    """-> ('ok', text) | ('error', syntax_possible, [(missing name, case must be kept?) in reading order])
 
     After a missing name the scan continues (as if replaced by nothing) only to learn
     whether a syntax error or further missing names exist too; the property does not say
@@ -67,6 +67,7 @@ def reference(s, mapping, env, lower):
             if q >= n or not char_is(s[q], closer):
                 return ('error', True, missing)        # unterminated
             name = s[p + 2:q]
+            exact = env_ref          # environment names are case-sensitive: "with its case preserved"
             if env_ref:
                 v = lookup(env, name)
             else:
@@ -77,10 +78,11 @@ def reference(s, mapping, env, lower):
             if q == p + 1:
                 return ('error', True, missing)        # '$' followed by anything else
             name = s[p + 1:q]
+            exact = False
             v = lookup(mapping, lower(name))
             p = q
         if v is None:
-            missing.append(name)
+            missing.append((name, exact))
         else:
             out = out + v
     if missing:
